@@ -83,7 +83,7 @@ var blockRe = regexp.MustCompile(`(?s)/\*@(.*?)@\*/`)
 var clauseKeywords = map[string]bool{
 	"serves": true, "requires": true, "ensures": true, "modifies": true, "decreases": true,
 	"loop": true, "flag": true, "pure": true, "trusted": true, "inline": true, "opaque": true,
-	"nopanic": true, "maypanic": true, "assume-safety": true, "dyncalls-pure": true, "unroll": true, "abstract": true, "allocates": true, "replaytext": true, "wrap": true, "overflow": true, "norac": true, "stages": true,
+	"nopanic": true, "maypanic": true, "assume-safety": true, "dyncalls-pure": true, "functional": true, "unroll": true, "abstract": true, "allocates": true, "replaytext": true, "wrap": true, "overflow": true, "norac": true, "stages": true,
 	"split": true, "assume-unreachable": true, "ghostset": true, "assumes": true, "assumepre": true, "lemma": true, "assert": true, "dyncall-preserves": true, "except": true, "loopinvariant": true, "loopdecreases": true, "notemplate": true,
 }
 
